@@ -159,6 +159,7 @@ def handle : List String → String
     match field? field, parseTable table with
     | some fd, some t => runLine (tableHasher t) fd seed ops
     | _, _ => "bad-op"
+  | ["tag", _] => "t"
   | "pow" :: _ => "-"
   | "bnd" :: _ => "-"
   | _ => "bad-op"
